@@ -7,8 +7,8 @@ HOOKS = {}
 
 EP = 'USE(lemma_epoch_REQ(), lemma_epoch_ENS(), "epoch");'
 HOOKS['LocalTime_TransitionType'] = [(r'return \{', EP + "\n" +
-    use('secrepr', ['EPOCHSEC + (Z)unix_time']) + "\n" + use('secrepr', ['EPOCHSEC + (Z)unix_time + (Z)(*tt).utc_offset']))]
-HOOKS['LocalTime_Transition'] = [(r'const TransitionType & tt', use('secrepr', ['OSEC((*tr).civil_sec) + ((Z)unix_time - (Z)(*tr).unix_time)']))]
+    use('secrepr', ['EPOCHSEC + (Z)unix_time']) + "\n" + use('secrepr', ['EPOCHSEC + (Z)unix_time + (Z)tt.utc_offset']))]
+HOOKS['LocalTime_Transition'] = [(r'const TransitionType & tt', use('secrepr', ['OSEC(tr.civil_sec) + ((Z)unix_time - (Z)tr.unix_time)']))]
 
 
 def lex(a, b):
@@ -24,3 +24,6 @@ MT0 = "\n".join([lex("cs", e + ".civil_sec") + "\n" + lex("cs", e + ".prev_civil
       "\n".join([lex("cs", "TR(self, %s).civil_sec" % j) + "\n" + lex("cs", "TR(self, %s).prev_civil_sec" % j) for j in ("gz_j", "gz_j - 1")]) + "\n}\n" + \
       'USE(lemma_epoch_REQ(), lemma_epoch_ENS(), "epoch");'
 GHOST['MakeTime'] = {0: MT0}
+
+for _f in ('MakeSkipped', 'MakeRepeated'):
+    GHOST[_f] = {0: lex("cs", "tr.civil_sec") + "\n" + lex("cs", "tr.prev_civil_sec")}
